@@ -18,7 +18,7 @@ CLAIMED = {
 SANDWICH = "TLC enumerates every terminal state of LoomSem (reference semantics, no reduction) for each program of the family under the strongest (Lower) and weakest (Upper) documented synchronisation; the real loom::model on the same program must satisfy Lower(P) subset-of loom(P) subset-of Upper(P), report a failure kind iff the spec reaches it, and every recorded iteration must be accepted by LoomSemTrace (enabling conditions evaluated at each event)."
 TRUST = "Trusted: LoomSem as the documented semantics (std + loom docs, DESIGN.md App. B), the DSL interpreter's logging discipline, TLC. Open findings are listed in known_findings.json; generated programs avoid their triggers (quarantine) or waive the affected comparison, directed shapes re-confirm them."
 for _pid, _tech, _fam, _ref in [
-    ("C01", "TLC full interleaving enumeration of LoomSem vs. outcome set of real loom::model; trace validation (LoomSemTrace)", "SyncMix (every mix of object kinds, SeqCst atomics)", "C01"),
+    ("C01", "TLC full interleaving enumeration of LoomSem vs. outcome set of real loom::model; trace validation (LoomSemTrace); Dpor.tla (Execution::schedule as a spec): TLC checks Complete over whole program spaces, predicted schedule sets compared with the real runs", "SyncMix (every mix of object kinds, SeqCst atomics) + Dpor program spaces (all programs of 2-3 spawned threads x 1-2 blocks over loads, stores, mutex sections)", "C01"),
     ("C04", "TLC reachability of Race in LoomSem (vector-clock happens-before) vs. loom's causality panic; trace validation of the failing iteration's state", "RaceIdioms (each synchronisation idiom, correct and broken) + random", "C04"),
     ("C05", "TLC reachability of Deadlock in LoomSem vs. loom's deadlock panic; trace validation pins the report to a deadlocked spec state", "Blocking (lock inversions, lost wake-ups, park tokens, channels)", "C05"),
     ("C07", "trace validation against LoomSem's lock machine (owner/readers, try_* both directions, hand-over views) + outcome-set sandwich", "Locks (2 mutexes, rwlock, nested/overlapping sections, protected cells)", "C07"),
@@ -35,9 +35,9 @@ for _pid, _tech, _txt in [
      "TLC enumerates all transitions of the reference register over boundary operands for all 12 atomic types; every transition and random chains of them are executed on loom::sync::atomic inside a model and on std::sync::atomic; spec = std validates the spec, spec = loom is the property."),
     ("C13", "ExploreTrace.tla validates the snapshot sequences of stopped and resumed runs; resume oracle from CheckLoop.tla/Explore.tla; ExploreMC behaviours replayed with a serde round trip at every step",
      "Two uninterrupted runs must agree snapshot by snapshot; for every stop point k and interval c the resumed run (new process, loaded checkpoint) must replay iterations s..N of the uninterrupted run exactly; a checkpoint written before a failing iteration must fail first. " + ENGINE),
-    ("C14", "ExploreTrace.tla: each recorded step is Explore!StepPath of the previous snapshot, strict DFS order; TLC invariants NoRepeat/Terminates on abstract trees; replay into rt::Path",
+    ("C14", "ExploreTrace.tla: each recorded step is Explore!StepPath of the previous snapshot, strict DFS order; TLC invariants NoRepeat/Terminates on abstract trees; replay into rt::Path; Dpor.tla NoRepeat + predicted = executed schedule sets",
      "Every consecutive pair of recorded path snapshots of real runs must be the spec's DFS successor, decision sequences pairwise distinct, iteration count = number of paths, done only when nothing is left. " + ENGINE),
-    ("C15", "LoomSemTrace.tla counts preemptions independently on every recorded iteration (enabledness in the spec state); ExploreTrace.tla bounds every pushed schedule; set inclusions across bounds",
+    ("C15", "LoomSemTrace.tla counts preemptions independently on every recorded iteration (enabledness in the spec state); ExploreTrace.tla bounds every pushed schedule; set inclusions across bounds; Dpor.tla: TLC checks Sound/Monotone/Saturates of the bounded reduction over whole program spaces and its predicted schedule sets are compared with the real runs",
      "For n in 0..6 (and n >= #ops): every iteration's independent preemption count <= n, loom_n subset-of loom_unbounded, monotone in n, equal at large n. " + ENGINE),
     ("C17", "outcome soundness + trace validation against LoomSem's per-thread / per-execution static maps, init/drop counters in every outcome",
      "TLC enumerates the reference outcomes of programs over 2 thread-locals and 2 lazy statics (one with a scheduling point inside its initialiser); every loom outcome incl. init/drop counters must be a reference outcome, every iteration validates from the spec's Init (re-initialisation), no causality panic on data published through a lazy static."),
@@ -70,7 +70,7 @@ def main():
     hooks = [l.split()[0] for l in head if "verification hooks" in l or l.split(" ", 1)[1].startswith("hook:")]
     m = {
         "version": 1,
-        "setup_cmd": "cd /verif/harness && (test -f Cargo.lock || cp /repo/Cargo.lock .) && CARGO_NET_OFFLINE=true cargo build --release --offline && cd /verif/specs && for f in LoomSem LoomSemTrace Explore ExploreMC ExploreTrace CheckLoop AtomicSeq RC11Ax; do tla-sany $f.tla >/dev/null || exit 1; done",
+        "setup_cmd": "cd /verif/harness && (test -f Cargo.lock || cp /repo/Cargo.lock .) && CARGO_NET_OFFLINE=true cargo build --release --offline && cd /verif/specs && for f in LoomSem LoomSemTrace Explore ExploreMC ExploreTrace CheckLoop AtomicSeq RC11Ax Dpor; do tla-sany $f.tla >/dev/null || exit 1; done",
         "hooks": {
             "guard": "cargo feature `verif` (implies `checkpoint`)",
             "enable": "harness/Cargo.toml: loom = { path = \"/repo\", features = [\"verif\", \"futures\"] }",
